@@ -1,0 +1,14 @@
+//go:build verif
+
+package socks5
+
+// Read-only accessors for the verification harness (build tag verif only).
+
+// VerifAuthenticators returns a copy of the authenticator list the server's
+// handler actually uses (after every default has been applied).
+func (s *Server) VerifAuthenticators() []Authenticator {
+	return append([]Authenticator(nil), s.handler.authenticators...)
+}
+
+// VerifConfig returns a copy of the server configuration.
+func (s *Server) VerifConfig() ServerConfig { return s.cfg }
